@@ -132,8 +132,9 @@ def run_case(case):
         return res
 
     try:
-        circ = build.build_py(s)
-        C = impl.compile_field(circ, cfg)
+        fe = cfg.get('frontend', 'python')
+        circ = {'python': build.build_py, 'yaml': build.build_yaml, 'roundtrip': build.build_roundtrip}[fe](s)
+        C = impl.compile_field(circ, {k: v for k, v in cfg.items() if k != 'frontend'})
     except Exception as e:
         import traceback
         tb = traceback.extract_tb(e.__traceback__)
